@@ -2,7 +2,7 @@
 EXTENDS ConfigGen
 Rules == {"table", "strikethrough", "code", "fence", "blockquote", "hr", "list", "reference", "html_block",
           "heading", "lheading", "newline", "escape", "backticks", "emphasis", "link", "image", "autolink",
-          "html_inline", "entity", "replacements", "smartquotes", "balance_pairs", "fragments_join"}
+          "html_inline", "entity", "replacements", "smartquotes"}
 Opts == {<<"html", "T">>, <<"html", "F">>, <<"typographer", "T">>, <<"breaks", "T">>, <<"xhtmlOut", "T">>,
          <<"xhtmlOut", "F">>, <<"langPrefix", "">>, <<"langPrefix", "x\"<">>, <<"quotes", "q4">>,
          <<"quotes", "qlist">>, <<"maxNesting", "1">>, <<"maxNesting", "2">>, <<"maxNesting", "5">>,
